@@ -47,9 +47,11 @@ def run(ctx):
                 values.add(b.value)
                 n_ent += 1
     ctx.need(n_ent >= 30, 'entity table has %d entries, expected >= 30' % n_ent)
-    loops = [n for n in f.all_nodes() if n.k == 'WhileStmt']
+    loops = [n for n in f.all_nodes() if n.k in ('WhileStmt', 'ForStmt')]
     decoders = []
     for l in loops:
+        if l.child('cond') is None:
+            continue
         ss = [c for c in q.calls_in(l.child('cond')) if c.callee_qp == 'FIX8::RegExp::SearchString']
         if len(ss) != 1:
             continue
@@ -81,6 +83,28 @@ def run(ctx):
         ctx.check(not others, 'R32.1', X + 'InplaceXlate#%s.later' % name, l.loc,
                   'text produced by the %s loop cannot be matched by a later decoding loop' % name,
                   'text produced by the %s loop can start a match of the later pattern(s) %s (e.g. &amp;#65; → &#65; → A)' % (name, others))
+    # ---------------- R32.4 SearchString(…, offset) searches source.c_str() + offset: the positions it leaves in the match are relative to that offset.
+    # Every consumer of the match inside such a loop must be handed the same offset; a consumer without an offset parameter (Replace, Erase) reads them as absolute.
+    for (l, ss, name, reps) in decoders:
+        off = ss.args[3] if len(ss.args) > 3 else None
+        if off is None or off.k == 'CXXDefaultArgExpr' or off.strip(casts=True).value == 0:
+            ctx.ok('R32.4', X + 'InplaceXlate#%s.match-offset' % name, l.loc, 'the %s loop searches from offset 0: match positions are absolute' % name)
+            continue
+        bad = None
+        for c in l.child('body').walk():
+            if not c.is_call or not (c.callee_qp or '').startswith('FIX8::RegExp::') or not c.args or not q.same_expr(c.args[0], ss.args[0]):
+                continue
+            pn = c.callee.get('pn', [])
+            if 'offset' in pn:
+                oa = c.args[pn.index('offset')]
+                if not q.same_expr(oa, off):
+                    bad = (c, 'is given offset `%s` but the search started at `%s`' % (oa.text(), off.text()))
+            elif c.callee.get('n') in ('Replace', 'Erase'):
+                bad = (c, 'has no offset parameter and applies the match positions to the whole string, but the search started at `%s` and the positions are relative '
+                          'to it: from the second reference on the replacement lands %s characters too early (`a&lt;b&gt;c` decodes to `a>t;c`)' % (off.text(), off.text()))
+        ctx.check(bad is None, 'R32.4', X + 'InplaceXlate#%s.match-offset' % name, (bad[0].loc if bad else l.loc),
+                  'every consumer of the %s match is handed the offset the search started at' % name,
+                  ('%s %s' % (bad[0].callee_qp, bad[1])) if bad else None)
     # ---------------- R32.3 a loop that resumes its search at an offset must advance the offset by what it INSERTED, not by what it removed
     n_off = 0
     for (l, ss, name, reps) in decoders:
@@ -108,6 +132,59 @@ def run(ctx):
     if n_off == 0:
         ctx.ok('R32.3', X + 'InplaceXlate#resume-offset', f.loc, 'no decoding loop resumes at an offset (both rescan from the start)')
 
+    # ---------------- R32.5 the attribute map and the child index are keyed by the exact name: the container types use the default ordering of std::string
+    # (two names are one key only when they are equal).  A comparator whose body folds case makes `a` and `A` one attribute: ParseAttrs reports a duplicate.
+    tu0 = f.tu
+    n_k = 0
+    for mem, cont in ((X[:-2] + '::attrs_', 'std::map'), (X[:-2] + '::children_', 'std::multimap')):
+        ds = [d for d in tu0.decls if d.get('qp') == mem and d.get('k') == 'Field']
+        ctx.need(len(ds) >= 1, mem + ' not found')
+        t = tu0.types[ds[0]['t']]
+        pt = tu0.types[t['pointee']] if t['k'] == 'ptr' else t
+        ctx.need(pt.get('recp') == cont, '%s is no longer a %s (%s)' % (mem, cont, pt.get('c')))
+        canon = pt['c']
+        # canonical spelling lists only non-default template arguments: key, mapped [, comparator [, allocator]]
+        depth, args, cur = 0, [], ''
+        for ch in canon[canon.index('<') + 1:canon.rindex('>')]:
+            if ch == '<':
+                depth += 1
+            elif ch == '>':
+                depth -= 1
+            if ch == ',' and depth == 0:
+                args.append(cur.strip())
+                cur = ''
+            else:
+                cur += ch
+        args.append(cur.strip())
+        n_k += 1
+        if len(args) == 2 or (len(args) >= 3 and args[2].startswith('std::less<')):
+            ctx.ok('R32.5', mem + '#exact-keys', 'include/fix8/xml.hpp:%d' % ds[0].get('l', 0), '%s is a %s ordered by std::less<std::string>: names are one key only when equal' % (mem.split('::')[-1], cont))
+            continue
+        comp = args[2]
+        folds = False
+        bodies = [g for g in prog.all_functions() if (g.rec or '').split('<')[0] == comp.split('<')[0] and g.q and 'operator()' in g.q]
+        FOLD = ('strcasecmp', 'strncasecmp', '_stricmp', 'stricmp', 'tolower', 'toupper', 'icompare')
+        work, seen_f = list(bodies), set()
+        for _ in range(4):          # the comparator body and what it calls, three levels down
+            nxt = []
+            for g in work:
+                if g.q in seen_f:
+                    continue
+                seen_f.add(g.q)
+                for c in g.all_nodes():
+                    cal = c.callee if c.is_call else (c.decl if c.k == 'DeclRefExpr' and c.decl is not None and c.decl.get('k') in ('Function', 'CXXMethod') else None)
+                    if cal is None:
+                        continue
+                    if cal.get('n') in FOLD:
+                        folds = True
+                    elif cal.get('qp'):
+                        nxt += prog.fns(cal['qp'])
+            work = nxt
+        if not bodies or not folds:
+            raise AnalysisBroken('%s is ordered by %s, whose body is not decided (does it identify different names?)' % (mem, comp))
+        ctx.fail('R32.5', mem + '#exact-keys', 'include/fix8/xml.hpp:%d' % ds[0].get('l', 0),
+                 '%s is keyed through %s, which compares names ignoring case: an element with attributes `a` and `A` (names that differ only in case) is rejected as '
+                 'having a duplicate attribute, and a lookup answers to any spelling' % (mem.split('::')[-1], comp))
     # ---------------- R32.2 path lookups: both find overloads descend with the REMAINING path and select children by the NEXT component
     finds = [g for g in prog.fns(X + 'find') if len(g.param_ids) >= 4]
     ctx.need(len(finds) == 2, 'expected the two path-lookup overloads of XmlElement::find, found %d' % len(finds))
@@ -139,3 +216,5 @@ def run(ctx):
                   'dropped, so the first child of the right name is returned whatever lies below it' % (r1, rc_.args[0].text(), r2, e_.args[0].text()))
     ctx.floor('R32.2', 2)
     ctx.floor('R32.1', 3)
+    ctx.floor('R32.4', 2)
+    ctx.floor('R32.5', 2)
